@@ -375,9 +375,9 @@ pub fn stdin_variants(rng: &mut Rng) -> Vec<Vec<u8>> {
 }
 
 pub fn token_soup(rng: &mut Rng, n: usize) -> Vec<u8> {
-    let toks: [&[u8]; 16] = [
+    let toks: [&[u8]; 21] = [
         b"1", b"23", b"-7", b"99999", b"1.5", b"abc", b"\"q\"", b",", b",", b" ", b"\r\n",
-        b"\n", b"\r", b"\xff", b"\0", b"1e40",
+        b"\n", b"\r", b"\xff", b"\0", b"1e40", b"nan", b"inf", b"-inf", b"1e999", b"NaN",
     ];
     let mut out = vec![];
     for _ in 0..rng.below(n + 1) {
@@ -659,6 +659,7 @@ pub fn gen_wrep(rng: &mut Rng) -> RawCase {
     // a GOTO into a block is legal for the checker; what the block's end finds on the
     // stacks is then not what its own start pushed
     let jumps = rng.chance(1, 6);
+    let mut skipped_dim = false;
     let n = 3 + rng.below(16);
     for _ in 0..n {
         let i1 = *rng.pick(&ie);
@@ -667,7 +668,14 @@ pub fn gen_wrep(rng: &mut Rng) -> RawCase {
         let s2 = *rng.pick(&se);
         let v = *rng.pick(&iv);
         let w = *rng.pick(&sv);
-        let line = match if rng.chance(1, 120) { 41 } else { rng.below(if jumps { 41 } else { 38 }) } {
+        let special = rng.below(150);
+        let line = match if special == 0 {
+            41
+        } else if special <= 6 {
+            41 + special
+        } else {
+            rng.below(if jumps { 41 } else { 38 })
+        } {
             0..=4 => format!("{} = {}", v, i1),
             5..=8 => format!("{} = {}", w, s1),
             9 => format!("{} = {} + {} * {}", v, i1, i2, i1),
@@ -681,7 +689,7 @@ pub fn gen_wrep(rng: &mut Rng) -> RawCase {
             17 => format!("SELECT CASE {}\nCASE 1 TO 3\nPRINT \"a\"\nCASE IS > {}\nPRINT \"b\"\nCASE ELSE\nEND SELECT", i1, i2),
             18 => format!("SELECT CASE {}\nCASE \"a\", \"b\"\nPRINT 1\nCASE ELSE\nPRINT 2\nEND SELECT", s1),
             19 => format!("WHILE I% < 3\nI% = I% + 1\n{} = {}\nWEND", v, i1),
-            20 => format!("Sb1 {}, {}, ({})", rng.pick(&["I%", "A1%(1)", "P.X", "GS%", "A1%(I%)", "PA(1).X"]), rng.pick(&["T$", "A2$(1, 2)", "GA$(1)", "A2$(I%, 0)"]), i1),
+            20 => format!("Sb1 {}, {}, ({})", rng.pick(&["I%", "A1%(1)", "P.X", "GS%", "A1%(I%)", "PA(1).X", "A1%(Fn1%(I%))", "A1%(Fn4%(I%, GS%))", "PA(Fn1%(I%)).X"]), rng.pick(&["T$", "A2$(1, 2)", "GA$(1)", "A2$(I%, 0)"]), i1),
             21 => {
                 // a record by reference, or by value (in parentheses: a record of another
                 // type is then for the checker to refuse)
@@ -720,7 +728,21 @@ pub fn gen_wrep(rng: &mut Rng) -> RawCase {
             39 => format!("IF {} > {} THEN GOTO {}", i1, i2, rng.pick(&["InFor", "InSel", "InWhile", "InIf"])),
             40 => format!("GOSUB {}", rng.pick(&["InFor", "InSel"])),
             // assignment to something that is not a variable: for the checker to refuse
-            _ => format!("{} = {}", rng.pick(&["MID$(T$, 2, 1)", "LEFT$(T$, 1)", "UBOUND(A1%)", "LEN(T$)"]), s1),
+            41 => format!("{} = {}", rng.pick(&["MID$(T$, 2, 1)", "LEFT$(T$, 1)", "UBOUND(A1%)", "LEN(T$)"]), s1),
+            // the store-back of the second argument fails after the SUB changed the index
+            42 => format!("Sb4 I%, A1%(I%)\nSb1 {}, T$, 1\n{} = LEFT$(T$, 1)", v, w),
+            // a record whose DIM is jumped over
+            43 if !skipped_dim => {
+                skipped_dim = true;
+                "GOTO SkD\nDIM C9 AS Pt\nSkD:\nC9.X = 5\nPRINT C9.X; VARPTR(C9.Y)".to_string()
+            }
+            // a whole array where a string variable is expected
+            44 => format!("{} {}", rng.pick(&["LINE INPUT", "LSET", "INPUT"]), rng.pick(&["GA$()", "GA$() = \"x\"", "A1%()"])),
+            // values no variable should hold, handed to a built-in that takes the bits apart
+            45 => "D# = 10\nFOR K3% = 1 TO 400\nD# = D# * 10\nNEXT\nT$ = MKD$(D#)\nT$ = MKD$(D# - D#)\nPRINT STR$(D# - D#); CVD(MKD$(-D#))".to_string(),
+            // one argument too many (a variable: it would be stored back): for the checker to refuse
+            46 => format!("Sb1 {}, T$, 1, {}\n{} = Fn1%(I%, J&)", v, rng.pick(&["J&", "I%", "D#", "GS%"]), v),
+            _ => format!("{} = STR$({}) + {}", w, i1, s1),
         };
         l.push(line);
     }
@@ -752,6 +774,7 @@ pub fn gen_wrep(rng: &mut Rng) -> RawCase {
     l.push("FUNCTION Fn2# (A!, B$)\nFn2# = A! + LEN(B$)\nEND FUNCTION".into());
     l.push("FUNCTION Fn3$ (B$)\nFn3$ = B$ + B$\nEND FUNCTION".into());
     l.push("FUNCTION Fn4% (A%, B%)\nA% = A% + 1\nFn4% = A% + B%\nEND FUNCTION".into());
+    l.push("SUB Sb4 (P%, Q%)\nP% = 10\nEND SUB".into());
     let text = l.join("\n") + "\n";
     RawCase {
         text,
